@@ -195,7 +195,7 @@ CHECKS = {
         "unknown-length sequences and maps, tuples, BTreeMap, externally tagged enums with unit/newtype/tuple/struct variants) and roundtrip_content for flattened structs, internally "
         "tagged, adjacently tagged and untagged enums whose buffered positions avoid char and () (HasTC.good = exactly the complement of K6/K7; via fromC_rt, the round trip through "
         "the Content buffer); (d) de_any_consumes_one_item for every accepted item in ANY framing (head widths, indefinite containers, chunked strings, f16); unknown struct fields "
-        "ignored; definite and indefinite seq/map/struct maps accepted; (e) the Option-in-Option exclusion, K6 (char behind Content) and K7 (unit behind Content) as machine-checked "
+        "ignored; definite and indefinite seq/map/struct maps accepted; structs and struct variants with run-time skipped fields (skip_serializing_if) round-trip (roundtrip_skipped_fields); (e) the Option-in-Option exclusion, K6 (char behind Content) and K7 (unit behind Content) as machine-checked "
         "counterexamples and the refutation of the unrestricted statement (roundtrip_statement_false). Correspondence: ~100 serde types incl. flatten / internally / adjacently tagged / "
         "untagged, judged by the property's own oracle in the orchestrator (independent encoder of the documented representation, reference well-formedness parser, de(ser v)==v, "
         "consumed==len, accepted re-framings, never-a-different-value on free re-framings) and compared with the model; strict prefixes and byte mutations against the model.",
